@@ -149,6 +149,12 @@ fn real_lx<F: PrimeField>(st: &mut St<F>, e: &Lx) -> RV<F> {
     match e {
         Lx::V(i) => RV::Var(st.rh(*i)),
         Lx::One => RV::Var(Variable::One()),
+        Lx::Raw(kind, i) => RV::Var(match kind {
+            0 => Variable::Committed(*i),
+            1 => Variable::MultiplierLeft(*i),
+            2 => Variable::MultiplierRight(*i),
+            _ => Variable::MultiplierOutput(*i),
+        }),
         Lx::K(s) => RV::K(st.model.sc(s)),
         Lx::Zero => {
             st.cov("LC::default");
@@ -580,6 +586,35 @@ pub fn prove_program_rng<G: AffineRepr, X: rand_core::RngCore>(
     let mut st = Rc::try_unwrap(st).ok().expect("state still shared").into_inner();
     st.model.phase_switch();
     ProveOut { proof, vs, st, log, ext: ext.log.clone(), probe, build_err }
+}
+
+/// Drive only the construction calls (no proving / verifying; closures are registered but never
+/// run): the call-by-call traces of a prover and a verifier for the same program.
+pub fn trace_only<G: AffineRepr>(prog: &Program, pc: &PedersenGens<G>) -> (St<G::ScalarField>, St<G::ScalarField>, Option<R1CSError>, Option<R1CSError>) {
+    mon::quiet(|| {
+        let stp = Rc::new(RefCell::new(St::<G::ScalarField>::new(&[])));
+        let mut vs: Vec<G> = vec![];
+        let mut tr = base_transcript(prog);
+        let perr = {
+            let mut p = Prover::new(pc, &mut tr);
+            let mut commit = |p: &mut Prover<G, &mut Transcript>, s: &mut St<G::ScalarField>, v: &crate::sc::Sc, b: &crate::sc::Sc| {
+                let vh = s.model.sc(v);
+                let vb = s.model.sc(b);
+                s.model.commit(vh, vh, vb);
+                s.n_commit += 1;
+                let (pt, var) = p.commit(vh, vb);
+                vs.push(pt);
+                var
+            };
+            drive(&mut p, prog, &stp, &mut commit).err()
+        };
+        let mut tr2 = base_transcript(prog);
+        let (v, stv) = build_verifier::<G>(prog, &vs, &mut tr2);
+        let verr = v.err();
+        let a = Rc::try_unwrap(stp).ok().expect("state shared").into_inner();
+        let b = Rc::try_unwrap(stv).ok().expect("state shared").into_inner();
+        (a, b, perr, verr)
+    })
 }
 
 pub struct VerifyOut<G: AffineRepr> {
